@@ -52,7 +52,7 @@ TEXTS = {
                 level_text=("Kernel-checked theorems (Properties/C02.lean): an action runs exactly when its expression matched and then sees pos = match start, text = the input slice "
                             "from the start to the current offset, arguments = the labels bound in the innermost scope; a code predicate's boolean alone decides, nothing is consumed; labels are bound on success. "
                             "The statement that predicate/state blocks see the current position is FALSE for the unchanged code (known finding D2, reproduced by the model: C02_pred_ctx_is_stale). "
-                            "That line/col are a pure function of (input, offset) is checked on every block invocation of every generated case by an oracle independent of model and code; its Lean proof (PtOK invariant) is not finished."),
+                            "That line/col are a pure function of (input, offset) is kernel-checked too (C02_position_reachable: after any expression, in every configuration, the parser's position and every memoized end position are reader positions; C02_pos_pure: a reader position is determined by its offset) and is re-checked on every block invocation of every generated case by an oracle independent of model and code."),
                 level_note=RT_NOTE),
     "C06": dict(technique="Lean 4 theorem (memo-table soundness by two-run simulation) for label-free pure grammars + twin execution (Memoize/Debug/Statistics flipped) on the real runtime",
                 design_ref="DESIGN.md §5 C06",
